@@ -124,6 +124,11 @@ impl JxlThreadPool {
 impl JxlThreadPool {
     /// Runs the given closure on the thread pool.
     pub fn spawn(&self, op: impl FnOnce() + Send + 'static) {
+        #[cfg(jxl_oxide_verif)]
+        let op = move || {
+            let _job = verif::JobGuard::enter();
+            op()
+        };
         match &self.0 {
             #[cfg(feature = "rayon")]
             JxlThreadPoolImpl::Rayon(pool) => pool.spawn(op),
@@ -144,16 +149,27 @@ impl JxlThreadPool {
             #[cfg(feature = "rayon")]
             JxlThreadPoolImpl::Rayon(pool) => pool.scope(|scope| {
                 let scope = JxlScope(JxlScopeInner::Rayon(scope));
+                #[cfg(jxl_oxide_verif)]
+                let _job = verif::JobGuard::enter();
                 op(scope)
             }),
             #[cfg(feature = "rayon")]
             JxlThreadPoolImpl::RayonGlobal => rayon_core::scope(|scope| {
                 let scope = JxlScope(JxlScopeInner::Rayon(scope));
+                #[cfg(jxl_oxide_verif)]
+                let _job = verif::JobGuard::enter();
                 op(scope)
             }),
             #[cfg(jxl_oxide_verif)]
-            JxlThreadPoolImpl::Verif(pool) => pool.scope(|scope| op(JxlScope(JxlScopeInner::Verif(scope)))),
-            JxlThreadPoolImpl::None => op(JxlScope(JxlScopeInner::None(Default::default()))),
+            JxlThreadPoolImpl::Verif(pool) => pool.scope(|scope| {
+                let _job = verif::JobGuard::enter();
+                op(JxlScope(JxlScopeInner::Verif(scope)))
+            }),
+            JxlThreadPoolImpl::None => {
+                #[cfg(jxl_oxide_verif)]
+                let _job = verif::JobGuard::enter();
+                op(JxlScope(JxlScopeInner::None(Default::default())))
+            }
         }
     }
 
@@ -272,13 +288,20 @@ impl<'scope> JxlScope<'_, 'scope> {
             #[cfg(feature = "rayon")]
             JxlScopeInner::Rayon(scope) => scope.spawn(|scope| {
                 let scope = JxlScope(JxlScopeInner::Rayon(scope));
+                #[cfg(jxl_oxide_verif)]
+                let _job = verif::JobGuard::enter();
                 op(scope)
             }),
             #[cfg(jxl_oxide_verif)]
-            JxlScopeInner::Verif(scope) => {
-                scope.push(Box::new(move |scope| op(JxlScope(JxlScopeInner::Verif(scope)))))
+            JxlScopeInner::Verif(scope) => scope.push(Box::new(move |scope| {
+                let _job = verif::JobGuard::enter();
+                op(JxlScope(JxlScopeInner::Verif(scope)))
+            })),
+            JxlScopeInner::None(_) => {
+                #[cfg(jxl_oxide_verif)]
+                let _job = verif::JobGuard::enter();
+                op(JxlScope(JxlScopeInner::None(Default::default())))
             }
-            JxlScopeInner::None(_) => op(JxlScope(JxlScopeInner::None(Default::default()))),
         }
     }
 }
@@ -303,6 +326,31 @@ impl JxlThreadPool {
 #[cfg(jxl_oxide_verif)]
 pub mod verif {
     use std::sync::{Arc, Mutex};
+
+    thread_local! {
+        static JOB_DEPTH: std::cell::Cell<usize> = const { std::cell::Cell::new(0) };
+    }
+
+    /// How many pool jobs (scope bodies, scope tasks, fire-and-forget tasks) enclose the calling code on this
+    /// thread: code running at depth > 0 occupies a pool worker when the pool is multithreaded.
+    pub fn job_depth() -> usize {
+        JOB_DEPTH.with(|d| d.get())
+    }
+
+    pub(crate) struct JobGuard;
+
+    impl JobGuard {
+        pub(crate) fn enter() -> Self {
+            JOB_DEPTH.with(|d| d.set(d.get() + 1));
+            JobGuard
+        }
+    }
+
+    impl Drop for JobGuard {
+        fn drop(&mut self) {
+            JOB_DEPTH.with(|d| d.set(d.get() - 1));
+        }
+    }
 
     /// Decisions the harness owns.
     pub trait VerifPoolHooks: Send + Sync {
